@@ -93,6 +93,9 @@ CATALOGUE = [
     ('C11-d', 'C11', 'circus/commands/set.py',
      "        self._check_options(watcher, props.get('options', {}))\n",
      ""),
+    ('C05-d', 'C05', 'circus/watcher.py',
+     "        if self._status != \"starting\":\n",
+     "        if False:\n"),
     ('C07-a', 'C07', 'circus/sockets.py',
      "        if hasattr(self, 'set_inheritable'):\n            self.set_inheritable(True)",
      "        if hasattr(self, 'set_inheritable'):\n            self.set_inheritable(False)"),
